@@ -96,6 +96,9 @@ def run(ctx) -> None:
         ("C01.R9-final-states-not-overwritten", "the controller assigns a final controllerState directly (bypassing finish()) only for the stages "
                                                 "a restart skipped: the loop is bounded by the stage the run started from, an attribute written "
                                                 "only on the first initialise"),
+        ("C01.R10-one-shot-iterators-read-once", "in the controller a local bound to a one-shot iterator (graph.predecessors(..), map/filter/zip, a "
+                                                 "generator expression) is consumed at most once per binding on every path: a second reader - "
+                                                 "the scheduling rules themselves, after a log statement sorted() it - sees no producers at all"),
         ("C01.R8-launch-order", "in finalize_submit_components run() is reached only for components that were staged in "
                                 "(member of staged_in), and stageIn precedes comp_staged_in.add"),
     ]:
@@ -410,9 +413,44 @@ def run(ctx) -> None:
     ctx.floor("C01.R7-lock", len(state_reads), 2, "state inspections in finishedCheck")
 
     _check_no_state_overwrite(ctx, ctl)
+    _check_one_shot_iterators(ctx, ctl)
 
 
 # ---------------------------------------------------------------------------------------------------------
+
+def _check_one_shot_iterators(ctx, ctl) -> None:
+    from vlib import iters
+    rule = "C01.R10-one-shot-iterators-read-once"
+    n = 0
+    n_fn = 0
+    for q, f in ctl.functions.items():
+        if q.count(".") > 1:
+            continue
+        n_fn += 1
+        binds = [x for x in source.walk_own(f) if isinstance(x, ast.Assign) and len(x.targets) == 1 and isinstance(x.targets[0], ast.Name)
+                 and iters.is_one_shot(x.value)]
+        if not binds:
+            continue
+        n += len(binds)
+        ctx.analysed(f)
+        doubles = iters.double_consumptions(f)
+        hit = {id(d) for (d, _, _) in doubles}
+        for (d, r1, r2) in doubles:
+            ctx.ob(rule, d, False,
+                   "%s binds %s to the one-shot iterator %s and reads it twice on one path (lines %s and %s): the second reader sees an exhausted "
+                   "iterator - for _schedule the list of producers is empty, none of the failed-/shut-down-producer rules can fire and the "
+                   "component is launched although a producer FAILED or was SHUT DOWN" % (
+                       q, d.targets[0].id, short(d.value, 40), getattr(r1.ast, "lineno", "?"), getattr(r2.ast, "lineno", "?")),
+                   construct="%s: %s = %s <- consumed once" % (q, d.targets[0].id, short(d.value, 40)))
+        for d in binds:
+            if id(d) not in hit:
+                ctx.ob(rule, d, True, "%s: %s is consumed at most once per binding" % (q, d.targets[0].id),
+                       construct="%s: %s = %s <- consumed once" % (q, d.targets[0].id, short(d.value, 40)))
+    if n == 0:
+        ctx.ob(rule, ctl.tree, True, "no local of the controller is bound to a one-shot iterator (%d functions inspected)" % n_fn,
+               construct="controller: no one-shot iterator bindings", trivial=True)
+    ctx.floor(rule, n_fn, 20, "functions of the controller inspected for one-shot iterator bindings")
+
 
 def _check_no_state_overwrite(ctx, ctl) -> None:
     """R9: the scheduling rules read the producers' final states; the only place that writes a final state without going through
